@@ -69,6 +69,7 @@ def cases():
             dts.append(d + 'T' + t)
     for s in dts:
         out.append(('date and time("%s") = date and time(string(date and time("%s")))' % (s, s), 'true'))
+        out.append(('date and time("%s") != null' % s, 'true'))   # (null = null is true: the read-back check alone would pass for a rejected literal)
     basedt = '2020-09-28T16:37:09.5Z'
     for i, ch in enumerate(basedt):
         if ch in ':.T-':
@@ -78,6 +79,15 @@ def cases():
         out.append(('date and time("%s")' % s, 'null'))
     for s in ('P1Y', 'P2M', 'P1Y2M', '-P11M', 'P0M', 'P1D', 'PT1H', 'PT1M', 'PT1S', 'PT0.5S', '-PT0.5S', 'P1DT2H3M4.5S', '-P1DT2H3M4S', 'PT36H', 'P14M', 'PT90M', 'PT0S', 'P999999999Y'):
         out.append(('duration("%s") = duration(string(duration("%s")))' % (s, s), 'true'))
+        out.append(('duration("%s") != null' % s, 'true'))
+    # components written as zero or with leading zeros are valid (the zero duration prints as P0M / PT0S and must read back)
+    for (s, t) in (('P0M', 'P0M'), ('P0Y', 'P0M'), ('-P0M', 'P0M'), ('P1Y0M', 'P1Y'), ('P0Y5M', 'P5M'), ('P01Y02M', 'P1Y2M'), ('P00012M', 'P1Y'), ('PT0S', 'PT0S'), ('P0D', 'PT0S'), ('-PT0S', 'PT0S'),
+                   ('P0DT0H0M0S', 'PT0S'), ('PT01S', 'PT1S'), ('P01DT02H03M04S', 'P1DT2H3M4S'), ('PT0H5M', 'PT5M'), ('PT0.0S', 'PT0S'), ('PT00.50S', 'PT0.5S')):
+        out.append(('string(duration("%s"))' % s, '"%s"' % t))
+    # year zero is a valid year (proleptic Gregorian calendar)
+    for (s, t) in (('0000-01-01', '0000-01-01'), ('0000-02-29', '0000-02-29'), ('0000-12-31', '0000-12-31'), ('0001-01-01', '0001-01-01'), ('-0001-12-31', '-0001-12-31')):
+        out.append(('string(date("%s"))' % s, '"%s"' % t))
+        out.append(('string(date and time("%sT10:20:30"))' % s, '"%sT10:20:30"' % t))
     for s in ('P', 'PT', 'P1H', 'PT1D', 'P1M2Y', 'P1Y2D', 'P1.5Y', 'PT1.5H', '1Y', 'P1S', 'PT1S2M', 'P-1Y', 'PT1,5S', 'P1YT', 'p1y', 'P 1Y'):
         out.append(('duration("%s")' % s, 'null'))
     # components of durations agree in sign and size with the total length (C15), and date-and-time literals range-check every field (C14)
@@ -124,6 +134,28 @@ def cases():
         out.append(('string(date(%d, 3, 4))' % y, '"%s-03-04"' % txt))
         out.append(('date(string(date(%d, 3, 4))) = date(%d, 3, 4)' % (y, y), 'true'))
         out.append(('string(date and time("%s-03-04T10:20:30"))' % txt, '"%s-03-04T10:20:30"' % txt))
+    # the weekday of a date-and-time is that of ITS OWN calendar date, whatever its offset or zone (C15), late in the evening and early in the morning
+    import datetime as _dt
+    for (d, (yy, mm, dd)) in (('2021-01-01', (2021, 1, 1)), ('2021-06-06', (2021, 6, 6)), ('2020-02-29', (2020, 2, 29)), ('1999-12-31', (1999, 12, 31))):
+        wd = _dt.date(yy, mm, dd).isoweekday()
+        for t in ('23:00:00-05:00', '00:30:00+09:00', '23:59:59-14:00', '00:00:00+14:00', '21:15:00@America/New_York', '01:30:00@Asia/Tokyo', '12:00:00Z', '23:30:00', '00:10:00'):
+            out.append(('date and time("%sT%s").weekday' % (d, t), str(wd)))
+        out.append(('date("%s").weekday' % d, str(wd)))
+    # dates beyond the year range of the chrono library (about +-262143) are valid dates all the same (C15: up to year +-999999999)
+    for y in (262142, 262143, 262144, 262145, 300000, 999999999):
+        for sign in ('', '-'):
+            for md in ('01-01', '07-15', '12-31', '02-28'):
+                lit = '%s%d-%s' % (sign, y, md)
+                out.append(('string(date("%s"))' % lit, '"%s"' % lit))
+            leap = (y % 4 == 0 and y % 100 != 0) or y % 400 == 0
+            out.append(('date("%s%d-02-29")' % (sign, y), ('%s%d-02-29' % (sign, y)) if leap else 'null'))
+    # UTC offsets of 15 hours and more are no offsets, whatever their sign, in time and date-and-time literals (C14); comparing such text must not panic
+    for off in ('-15:00', '+15:00', '-23:59', '-24:00', '+24:00', '-99:00', '+99:59', '-14:60', '-99:99'):
+        out.append(('time("10:20:30%s")' % off, 'null'))
+        out.append(('date and time("2021-10-10T10:20:30%s")' % off, 'null'))
+        out.append(('date and time("2021-10-10T10:20:30%s") = date and time("2021-10-10T10:20:30Z")' % off, '!true'))
+    for off in ('-14:59', '+14:59', '-14:59:59', '+14:59:59', '-00:01'):
+        out.append(('string(time("10:20:30%s"))' % off, '"10:20:30%s"' % off))
     # time(h, m, s, offset): like in time literals the magnitude of the offset is below 15 hours, whatever the size of the duration (C14: a zone is
     # printed as the offset that was written - so an offset that cannot be written is no time)
     for (o, txt) in (('PT0S', 'Z'), ('PT1H', '+01:00'), ('-PT1H30M', '-01:30'), ('PT14H59M59S', '+14:59:59'), ('-PT14H59M59S', '-14:59:59'), ('-PT0.9S', 'Z')):
